@@ -46,11 +46,12 @@ Section Logic.
 Variable u : bool.
 Variable I : db -> Prop.
 Variable G : io -> reply -> Prop.
+Variable SA : ans -> Prop.   (* which answers the scripts may contain *)
 
 Definition post := outcome -> db -> cstate -> Prop.
 
 Definition safe (p : prog) (d : db) (cs : cstate) (Q : post) : Prop :=
-  forall s, trace_sat G (exec u p s d cs) ->
+  forall s, Forall SA s -> trace_sat G (exec u p s d cs) ->
     Forall (fun e => I (snd e)) (r_trace (exec u p s d cs))
     /\ I (r_db (exec u p s d cs))
     /\ forall o, r_out (exec u p s d cs) = Fin o ->
@@ -58,19 +59,19 @@ Definition safe (p : prog) (d : db) (cs : cstate) (Q : post) : Prop :=
 
 Lemma safe_ret : forall o d cs (Q : post), I d -> Q o d cs -> safe (Ret o) d cs Q.
 Proof.
-  intros o d cs Q Hi Hq s _. rewrite exec_ret. cbn.
+  intros o d cs Q Hi Hq s _ _. rewrite exec_ret. cbn.
   split; [constructor|]. split; [exact Hi|]. intros o' E. inversion E; subst. exact Hq.
 Qed.
 
 Lemma safe_op : forall i k d cs (Q : post),
   I d ->
-  (forall a, a <> ACrash -> G i (snd (step_op u d cs i a)) ->
+  (forall a, a <> ACrash -> SA a -> G i (snd (step_op u d cs i a)) ->
      I (fst (fst (step_op u d cs i a)))
      /\ safe (k (snd (step_op u d cs i a))) (fst (fst (step_op u d cs i a)))
              (snd (fst (step_op u d cs i a))) Q) ->
   safe (Op i k) d cs Q.
 Proof.
-  intros i k d cs Q Hi H s Ht.
+  intros i k d cs Q Hi H s Hsa Ht.
   destruct s as [|a s].
   - rewrite exec_nil in *. cbn. split; [constructor|]. split; [exact Hi|]. discriminate.
   - destruct (match a with ACrash => true | _ => false end) eqn:Ea.
@@ -80,15 +81,16 @@ Proof.
       rewrite exec_op in * by exact Hna. cbn zeta in *. cbn [r_trace r_db r_out r_cs] in *.
       unfold trace_sat in Ht. cbn [r_trace] in Ht.
       inversion Ht as [|? ? Hg Hrest]; subst. cbn [fst snd] in Hg.
-      destruct (H a Hna Hg) as [Hi' Hs].
-      destruct (Hs s Hrest) as (A & B & C).
+      inversion Hsa as [|? ? Hsa1 Hsa2]; subst.
+      destruct (H a Hna Hsa1 Hg) as [Hi' Hs].
+      destruct (Hs s Hsa2 Hrest) as (A & B & C).
       split; [constructor; [exact Hi'|exact A]|]. split; [exact B|exact C].
 Qed.
 
 Lemma safe_weaken : forall p d cs (Q Q' : post),
   (forall o d' cs', Q o d' cs' -> Q' o d' cs') -> safe p d cs Q -> safe p d cs Q'.
 Proof.
-  intros p d cs Q Q' H Hs s Ht. destruct (Hs s Ht) as (A & B & C).
+  intros p d cs Q Q' H Hs s Hsa Ht. destruct (Hs s Hsa Ht) as (A & B & C).
   split; [exact A|]. split; [exact B|]. intros o E. apply H. apply C. exact E.
 Qed.
 
@@ -104,7 +106,7 @@ Lemma safe_op_node : forall i k d cs (Q : post),
   safe (Op i k) d cs Q.
 Proof.
   intros i k d cs Q Hn Hi H. apply safe_op; [exact Hi|].
-  intros a Ha Hg. pose proof (step_op_node d cs i a Hn) as E.
+  intros a Ha _ Hg. pose proof (step_op_node d cs i a Hn) as E.
   destruct (step_op u d cs i a) as [[d' cs'] r]. cbn [fst snd] in *. inversion E; subst.
   split; [exact Hi|]. apply H. exact Hg.
 Qed.
@@ -112,7 +114,7 @@ Qed.
 (* operations inside a transaction other than Begin / Commit / Rollback *)
 Definition is_tx_op (i : io) : bool :=
   match i with
-  | QLatest _ _ | QLatestDep _ _ | DelCursors _ _ _ | QPrev _ _ | DelRows _ _ _ _
+  | QLatest _ _ | DelCursors _ _ _ | QPrev _ _ | DelRows _ _ _ _
   | CopyRows _ _ | InsCursor _ _ _ _ | QRef _ _ _ => true
   | _ => false
   end.
@@ -130,21 +132,56 @@ Proof. intros i H. destruct i; try discriminate; reflexivity. Qed.
 
 (* in a transaction: either the database answered, or the op failed without
    effect and the transaction is still open or gone with its connection *)
+Lemma forced_dep_tx : forall i a, is_tx_op i = true -> forced_dep i a = None.
+Proof.
+  intros i a H. unfold forced_dep. destruct a as [|r|]; try reflexivity.
+  destruct r; try reflexivity. destruct i; try discriminate; reflexivity.
+Qed.
+
+Lemma fault_tx : forall d ws i k,
+  (is_tx_op i = true \/ exists s deps, i = QLatestDep s deps) ->
+  exists cs', fault u d (Some ws) i k = (d, cs', RFail k) /\ (cs' = Some ws \/ cs' = None).
+Proof.
+  intros d ws i k H. unfold fault. destruct k.
+  - exists (Some ws). destruct H as [H|(s & deps & ->)]; [destruct i; try discriminate|];
+      (split; [reflexivity|left; reflexivity]).
+  - exists None. split; [reflexivity|right; reflexivity].
+  - exists None. assert (E : fst (fst (db_step u d (Some ws) i)) = d).
+    { destruct H as [H|(s & deps & ->)]; [apply db_step_tx_db; exact H|reflexivity]. }
+    destruct (db_step u d (Some ws) i) as [[d' c'] r']. cbn [fst] in E. subst d'.
+    split; [reflexivity|right; reflexivity].
+  - exists (Some ws). destruct H as [H|(s & deps & ->)]; [destruct i; try discriminate|];
+      (split; [reflexivity|left; reflexivity]).
+  - exists (Some ws). destruct H as [H|(s & deps & ->)]; [destruct i; try discriminate|];
+      (split; [reflexivity|left; reflexivity]).
+Qed.
+
 Lemma step_op_tx : forall d ws i a, is_tx_op i = true -> a <> ACrash ->
   step_op u d (Some ws) i a = db_step u d (Some ws) i
   \/ exists k cs', step_op u d (Some ws) i a = (d, cs', RFail k) /\ (cs' = Some ws \/ cs' = None).
 Proof.
-  intros d ws i a H Ha. unfold step_op. rewrite (is_tx_op_db i H).
+  intros d ws i a H Ha. unfold step_op. rewrite (is_tx_op_db i H), (forced_dep_tx i a H).
   destruct a as [|r|]; [left; reflexivity| |congruence].
   destruct r as [| | k | | | | | | |]; try (left; reflexivity).
-  right. unfold fault. destruct k.
-  - exists KErr, (Some ws). destruct i; try discriminate; (split; [reflexivity|left; reflexivity]).
-  - exists KDrop, None. split; [reflexivity|right; reflexivity].
-  - exists KDropAfter, None. pose proof (db_step_tx_db d ws i H) as E.
-    destruct (db_step u d (Some ws) i) as [[d' c'] r']. cbn [fst] in E. subst d'.
-    split; [reflexivity|right; reflexivity].
-  - exists KUnique, (Some ws). destruct i; try discriminate; (split; [reflexivity|left; reflexivity]).
-  - exists KPanic, (Some ws). destruct i; try discriminate; (split; [reflexivity|left; reflexivity]).
+  right. destruct (fault_tx d ws i k (or_introl H)) as (cs' & E & Hc). exists k, cs'. split; assumption.
+Qed.
+
+(* the dependency query: the database answers, or the query fails, or the
+   reading is forced *)
+Lemma step_op_dep : forall d ws s deps a, a <> ACrash ->
+  step_op u d (Some ws) (QLatestDep s deps) a = db_step u d (Some ws) (QLatestDep s deps)
+  \/ (exists k cs', step_op u d (Some ws) (QLatestDep s deps) a = (d, cs', RFail k)
+                    /\ (cs' = Some ws \/ cs' = None))
+  \/ exists x, a = AReply (RDep x)
+               /\ step_op u d (Some ws) (QLatestDep s deps) a = (d, Some ws, RDep x).
+Proof.
+  intros d ws s deps a Ha. unfold step_op. cbn [is_db_op].
+  destruct a as [|r|]; [left; reflexivity| |congruence].
+  destruct r as [| | k | | o | | | | |]; try (left; reflexivity).
+  - right. left. cbn [forced_dep].
+    destruct (fault_tx d ws (QLatestDep s deps) k (or_intror (ex_intro _ s (ex_intro _ deps eq_refl))))
+      as (cs' & E & Hc). exists k, cs'. split; assumption.
+  - right. right. exists o. split; reflexivity.
 Qed.
 
 Lemma safe_op_tx : forall i k d ws (Q : post),
@@ -154,11 +191,26 @@ Lemma safe_op_tx : forall i k d ws (Q : post),
   safe (Op i k) d (Some ws) Q.
 Proof.
   intros i k d ws Q Ht Hi Hf Hn. apply safe_op; [exact Hi|].
-  intros a Ha _. destruct (step_op_tx d ws i a Ht Ha) as [E|(kd & cs' & E & Hc)].
+  intros a Ha _ _. destruct (step_op_tx d ws i a Ht Ha) as [E|(kd & cs' & E & Hc)].
   - rewrite E. pose proof (db_step_tx_db d ws i Ht) as D.
     destruct (db_step u d (Some ws) i) as [[d' cs'] r] eqn:S. cbn [fst snd] in *. subst d'.
     split; [exact Hi|]. apply Hn. reflexivity.
   - rewrite E. cbn [fst snd]. split; [exact Hi|]. apply Hf; [reflexivity|exact Hc].
+Qed.
+
+Lemma safe_op_dep : forall s deps k d ws (Q : post),
+  I d ->
+  (forall r cs', is_fail r = true -> (cs' = Some ws \/ cs' = None) -> safe (k r) d cs' Q) ->
+  safe (k (snd (db_step u d (Some ws) (QLatestDep s deps)))) d (Some ws) Q ->
+  (forall x, SA (AReply (RDep x)) -> safe (k (RDep x)) d (Some ws) Q) ->
+  safe (Op (QLatestDep s deps) k) d (Some ws) Q.
+Proof.
+  intros s deps k d ws Q Hi Hf Hn Hx. apply safe_op; [exact Hi|].
+  intros a Ha Hsa _. destruct (step_op_dep d ws s deps a Ha) as [E|[(kd & cs' & E & Hc)|(x & -> & E)]];
+    rewrite E; cbn [fst snd].
+  - split; [exact Hi|exact Hn].
+  - split; [exact Hi|]. apply Hf; [reflexivity|exact Hc].
+  - split; [exact Hi|]. apply Hx. exact Hsa.
 Qed.
 
 (* Rollback always ends the transaction and never changes the committed state *)
@@ -173,7 +225,7 @@ Qed.
 Lemma safe_rb : forall o d cs (Q : post), I d -> Q o d None -> safe (rb o) d cs Q.
 Proof.
   intros o d cs Q Hi Hq. unfold rb. apply safe_op; [exact Hi|].
-  intros a Ha _. pose proof (step_op_rollback d cs a Ha) as E.
+  intros a Ha _ _. pose proof (step_op_rollback d cs a Ha) as E.
   destruct (step_op u d cs Rollback a) as [[d' cs'] r]. cbn [fst snd] in *. inversion E; subst.
   split; [exact Hi|]. apply safe_ret; assumption.
 Qed.
